@@ -338,6 +338,7 @@ class BatchSpy:
             cb(h, X, affinity_matrix)
         if isinstance(rs, SimRandomState):
             rs.last_perm = None
+        h.epoch_batches = {}
         offset = 0
         for Xb, Ab in self._inner(X, affinity_matrix, rs):
             h.batch_in_epoch += 1
@@ -355,6 +356,9 @@ class BatchSpy:
                 ids = list(range(len(X)))
             offset += len(Xb)
             h.cur_ids = ids if ids is not None else h.identify(X, Xb)
+            # remembered by OBJECT: whoever later computes on this very batch object (a training loop may legitimately
+            # or mistakenly consume the generator ahead of time) can be told which samples it holds
+            h.epoch_batches[id(Xb)] = (Xb, Ab, h.cur_ids)
             h.world.log.emit("BATCH", epoch=h.epoch, b=h.batch_in_epoch, ids=h.cur_ids,
                              aff=None if Ab is None else list(Ab.shape))
             for cb in h.batch_hooks:
@@ -411,6 +415,24 @@ class ModelHarness:
 
     def wrap_batchify(self):
         self.model._batchify = BatchSpy(self, self.model._batchify)
+        self.epoch_batches = {}
+        self.last_infer_X = None
+        inner_infer = self.model._infer
+        harness = self
+
+        def infer_spy(X, retain=True):
+            if retain:
+                harness.last_infer_X = X       # the batch object the training loop is working on right now
+            return inner_infer(X, retain) if retain is not True else inner_infer(X)
+        self.model._infer = infer_spy
+
+    def resolve(self, Xb=None):
+        """(X_batch, affinity_batch, true ids) of the batch a gradient is being computed on: by the identity of the batch
+        object handed to _compute_grads / last forwarded through _infer; the generator's current batch otherwise."""
+        key = Xb if Xb is not None else self.last_infer_X
+        if key is not None and id(key) in self.epoch_batches and self.epoch_batches[id(key)][0] is key:
+            return self.epoch_batches[id(key)]
+        return (self.cur_batch[0], self.cur_batch[1], self.cur_ids)
 
     @staticmethod
     def identify(X_full, X_batch):
